@@ -453,7 +453,12 @@ func init() {
 		// IncrementProposerPriority: `times` single steps, the last one's proposer is stored
 		if g := c.fn("types", "ValidatorSet.IncrementProposerPriority"); g != nil {
 			gk := funcKey(g)
-			inc := w.callsTo(g, "types#ValidatorSet.incrementProposerPriority")
+			// the single step is recognised by its selection of the validator with the most priority — in the
+			// step helper or, when that was inlined, in the loop itself
+			var inc []ssa.CallInstruction
+			for _, dc := range w.deepCallsTo(g, 1, "types#ValidatorSet.getValWithMostPriority") {
+				inc = append(inc, dc.site)
+			}
 			c.Check(len(inc) == 1 && loopOf(inc[0]) != nil, gk+" :: one priority step per round", w.pos(g.Pos()), "loop", "no loop of single steps")
 			if len(inc) == 1 && loopOf(inc[0]) != nil {
 				nec := w.necessaryAtoms(g, inc[0])
@@ -467,7 +472,7 @@ func init() {
 			}
 			ok := false
 			for _, fs := range w.fieldStoresIn(g, "types", "ValidatorSet", "Proposer") {
-				if strings.Contains(w.expr(fs.Store.Val), "incrementProposerPriority()") {
+				if v := w.expr(fs.Store.Val); strings.Contains(v, "incrementProposerPriority()") || strings.Contains(v, "getValWithMostPriority()") {
 					ok = true
 				}
 			}
